@@ -303,6 +303,41 @@ struct ClassIt {
     friend bool operator!=(ClassIt a, ClassIt b) { return a.p != b.p; }
 };
 
+// a genuinely single-pass source (added after seeded breakage c04_append_input_iterator_distance: append(first,last) took
+// distance(first,last) before copying - for an input iterator whose copies share one cursor, like istream_iterator, that
+// consumes the range; ClassIt above is multi-pass in practice, whatever its tag says)
+template <typename Char>
+struct OnceSrc {
+    Char const* cur;
+    Char const* end_;
+    struct It {
+        using iterator_category = etl::input_iterator_tag;
+        using value_type        = Char;
+        using difference_type   = std::ptrdiff_t;
+        using pointer           = Char const*;
+        using reference         = Char const&;
+        OnceSrc* src{nullptr}; // nullptr = the end iterator
+        reference operator*() const { return *src->cur; }
+        pointer operator->() const { return src->cur; }
+        It& operator++()
+        {
+            ++src->cur; // every copy of the iterator moves with it
+            return *this;
+        }
+        It operator++(int)
+        {
+            auto c = *this;
+            ++src->cur;
+            return c;
+        }
+        bool at_end() const { return src == nullptr || src->cur == src->end_; }
+        friend bool operator==(It a, It b) { return a.at_end() == b.at_end(); }
+        friend bool operator!=(It a, It b) { return !(a == b); }
+    };
+    It begin() { return It{this}; }
+    It end() { return It{nullptr}; }
+};
+
 template <typename Char, std::size_t N>
 void iterators_job(mc::Reporter& r)
 {
@@ -335,6 +370,18 @@ void iterators_job(mc::Reporter& r)
                 fn("class iterator with etl::forward_iterator_tag", ClassIt<Char, etl::forward_iterator_tag>{src.data()}, ClassIt<Char, etl::forward_iterator_tag>{src.data() + lb}, src);
                 fn("etl::basic_string_view::const_iterator", etl::basic_string_view<Char>(src.data(), lb).begin(), etl::basic_string_view<Char>(src.data(), lb).end(), src);
             };
+            if constexpr (requires(S& x, OnceSrc<Char>& o) { x.append(o.begin(), o.end()); }) {
+                L.guarded([&] {
+                    // the source is built inside the call, so that every execution of the case starts with an unread range
+                    OP("append(first,last)", "single_pass_iterator", CL, ("t.append(first,last) over a single-pass input iterator (copies share one cursor) denoting ", show(src)),
+                        if constexpr (std::is_same_v<T, S>) {
+                            OnceSrc<Char> o{src.data(), src.data() + src.size()};
+                            return self(t, t.append(o.begin(), o.end()));
+                        } else { return self(t, t.append(src)); });
+                });
+            } else {
+                gaps.insert("append(first,last) does not accept a single-pass iterator with etl::input_iterator_tag");
+            }
             L.guarded([&] {
                 kinds([&](char const* kind, auto first, auto last, M const& seq) {
                     using It = decltype(first);
@@ -544,6 +591,7 @@ void register_jobs(mc::Main& m)
         add_swap<char, 16>(m, both);
         add_cross<char, 15, 16>(m, both);
         m.job("to_string", both, to_string_job);
+        add_iter<char, 7>(m, both); // iterator kinds incl. the single-pass source, small capacity for the quick tier
     }
     if constexpr (Part == 1) {
         add_swap<char, 7>(m, th);
